@@ -79,6 +79,14 @@ fn explore_unit(u: &Unit, want: &[u32], max: u64) -> Report {
                 Ok(bits) => {
                     distinct.insert(driver::digest(&bits));
                     if bits != want {
+                        // replay the same schedule once more: a verdict is only trusted if it is reproducible
+                        match rayon::model::run_once(u.threads, Some(&u.free), &picks, &[], || driver::run_segment(u.seg)) {
+                            Ok((again, _)) if again == bits => (),
+                            _ => {
+                                eprintln!("machinery error: schedule {:?} of segment {} (T={}) is not reproducible", picks, u.seg, u.threads);
+                                std::process::exit(3);
+                            }
+                        }
                         let what = if u.seg.starts_with("learn") {
                             "training result (losses / validation metrics / final weights)"
                         } else if u.seg == "validate" {
